@@ -11,25 +11,34 @@ Lib == [ R  |-> << <<"in">>, <<"out">> >>,
          N  |-> << <<"in">>, <<"next">>, <<"out">> >>,
          A  |-> << <<"in">>, <<"abort">>, <<"out">> >>,
          AS |-> << <<"in">>, <<"abortStatus", 403>>, <<"out">> >>,
-         W  |-> << <<"in">>, <<"write", 2, "full">>, <<"out">> >> ]
+         W  |-> << <<"in">>, <<"write", 2, "full">>, <<"out">> >>,
+         P  |-> << <<"in">>, <<"panic">> >> ]
 \* (handlers that record errors are left out: OnError then runs at the end of the nested AND of the outer dispatch)
 Pre == [ none |-> <<>>, status |-> << <<"status", 404>> >>, write |-> << <<"status", 202>>, <<"write", 3, "full">> >> ]
 Seqs(n) == UNION { [1..k -> Scripts] : k \in 0..n }
 \* tail = 1: the re-dispatcher is a MIDDLEWARE of its route, the route's main handler comes after it in the outer chain and
 \* is never started (the cursor left behind by the nested dispatch is past it - the nested chain is at least as long)
-Init == \E g \in Seqs(MaxG), inner \in Seqs(MaxInner) \ {<<>>}, p \in DOMAIN Pre, t \in 0..1 :
+\* hook: the OnPanic hook of the router that serves the nested dispatch ("none": no hook - then no script panics);
+\* other: the nested dispatch is served by ANOTHER router (B.HandleContext(c) from a handler of A) with the same global
+\* middleware and B's own hook; A's hook must stay out of it
+HookOf(h) == IF h = "none" THEN None ELSE << <<"in">>, <<"status", 500>>, <<"write", 1, "full">> >>
+Init == \E g \in Seqs(MaxG), inner \in Seqs(MaxInner) \ {<<>>}, p \in DOMAIN Pre, t \in 0..1, hk \in {"none", "status"}, o \in BOOLEAN :
           /\ Len(inner) >= 1 + t
-          /\ c = [g |-> g, inner |-> inner, pre |-> p, tail |-> t]
+          /\ (hk = "none" => \A i \in 1..Len(g) : g[i] # "P") /\ (hk = "none" => \A i \in 1..Len(inner) : inner[i] # "P")
+          /\ (\A i \in 1..Len(g) : g[i] # "P")                 \* (panics only inside the nested chain)
+          /\ (o => hk # "none")
+          /\ (t = 1 => \A i \in 1..Len(inner) : inner[i] # "P")     \* (panics only when the re-dispatcher is the last handler of its chain)
+          /\ c = [g |-> g, inner |-> inner, pre |-> p, tail |-> t, hook |-> hk, other |-> o]
 Next == FALSE /\ c' = c
 
 G == [i \in 1..Len(c.g) |-> Lib[c.g[i]]]
 B == Len(c.g) + 1 + c.tail
 TailH == IF c.tail = 1 THEN << Lib["N"] >> ELSE <<>>
-Redispatcher == << <<"in">> >> \o Pre[c.pre] \o << <<"redispatch", B>>, <<"out">> >>
+Redispatcher == << <<"in">> >> \o Pre[c.pre] \o << <<"redispatch", B, HookOf(c.hook)>>, <<"out">> >>
 Chain == G \o <<Redispatcher>> \o TailH \o G \o [i \in 1..Len(c.inner) |-> Lib[c.inner[i]]]
 OnErr == << <<"in">>, <<"status", 500>>, <<"out">> >>
-D == IdealDispatch(Chain, OnErr, None)
+D == IdealDispatch(Chain, OnErr, HookOf(c.hook))
 RedispatchOK == OneCommit(D.w, D.wops)
-Emit == PrintT(ToJson([kind |-> "redispatch", chain |-> Chain, n |-> Len(Chain), g |-> Len(c.g), b |-> B, tail |-> c.tail, log |-> D.log, under |-> D.w.under,
-                       escaped |-> FALSE, hooked |-> FALSE, checkw |-> TRUE, onerror |-> OnErr]))
+Emit == PrintT(ToJson([kind |-> "redispatch", chain |-> Chain, n |-> Len(Chain), g |-> Len(c.g), b |-> B, tail |-> c.tail, other |-> c.other, log |-> D.log, under |-> D.w.under,
+                       escaped |-> FALSE, hooked |-> FALSE, checkw |-> TRUE, onerror |-> OnErr] @@ (IF c.hook = "none" THEN <<>> ELSE [hook |-> HookOf(c.hook)])))
 =============================================================================
